@@ -1,0 +1,51 @@
+//go:build verif
+
+package impl
+
+import (
+	"reflect"
+
+	"google.golang.org/protobuf/reflect/protoreflect"
+)
+
+// Coder selection (C11): which coder the table builder picks for a field decides whether zero
+// values are put on the wire and whether Merge overwrites with them. A field WITHOUT presence
+// (implicit presence: proto3 scalars, editions IMPLICIT) that is not repeated, not a message and
+// not in a oneof must get the coder of its kind that omits zero values (the *NoZero family, whose
+// own contracts say: size 0 / nothing appended / destination kept for the zero value).
+//
+//@ pure protoreflect.FieldDescriptor.IsMap protoreflect.FieldDescriptor.Cardinality protoreflect.FieldDescriptor.IsPacked protoreflect.FieldDescriptor.Kind protoreflect.FieldDescriptor.HasPresence protoreflect.FieldDescriptor.ContainingOneof
+//@ pure reflect.Type.Kind reflect.Type.Elem strs.EnforceUTF8
+
+func specImplicitScalar(fd protoreflect.FieldDescriptor) bool {
+	return !fd.IsMap() && fd.Cardinality() != protoreflect.Repeated &&
+		fd.Kind() != protoreflect.MessageKind && fd.Kind() != protoreflect.GroupKind &&
+		!fd.HasPresence() && fd.ContainingOneof() == nil
+}
+
+// @ props C11
+// @ mode int
+// @ nopanic
+func contract_fieldCoder(fd protoreflect.FieldDescriptor, ft reflect.Type) (mi *MessageInfo, funcs pointerCoderFuncs) {
+	modifiesAll()
+	ensures(imp(specImplicitScalar(fd) && fd.Kind() == protoreflect.BoolKind, identical(funcs, coderBoolNoZero)))
+	ensures(imp(specImplicitScalar(fd) && fd.Kind() == protoreflect.EnumKind, identical(funcs, coderEnumNoZero)))
+	ensures(imp(specImplicitScalar(fd) && fd.Kind() == protoreflect.Int32Kind, identical(funcs, coderInt32NoZero)))
+	ensures(imp(specImplicitScalar(fd) && fd.Kind() == protoreflect.Sint32Kind, identical(funcs, coderSint32NoZero)))
+	ensures(imp(specImplicitScalar(fd) && fd.Kind() == protoreflect.Uint32Kind, identical(funcs, coderUint32NoZero)))
+	ensures(imp(specImplicitScalar(fd) && fd.Kind() == protoreflect.Int64Kind, identical(funcs, coderInt64NoZero)))
+	ensures(imp(specImplicitScalar(fd) && fd.Kind() == protoreflect.Sint64Kind, identical(funcs, coderSint64NoZero)))
+	ensures(imp(specImplicitScalar(fd) && fd.Kind() == protoreflect.Uint64Kind, identical(funcs, coderUint64NoZero)))
+	ensures(imp(specImplicitScalar(fd) && fd.Kind() == protoreflect.Sfixed32Kind, identical(funcs, coderSfixed32NoZero)))
+	ensures(imp(specImplicitScalar(fd) && fd.Kind() == protoreflect.Fixed32Kind, identical(funcs, coderFixed32NoZero)))
+	ensures(imp(specImplicitScalar(fd) && fd.Kind() == protoreflect.FloatKind, identical(funcs, coderFloatNoZero)))
+	ensures(imp(specImplicitScalar(fd) && fd.Kind() == protoreflect.Sfixed64Kind, identical(funcs, coderSfixed64NoZero)))
+	ensures(imp(specImplicitScalar(fd) && fd.Kind() == protoreflect.Fixed64Kind, identical(funcs, coderFixed64NoZero)))
+	ensures(imp(specImplicitScalar(fd) && fd.Kind() == protoreflect.DoubleKind, identical(funcs, coderDoubleNoZero)))
+	ensures(imp(specImplicitScalar(fd) && fd.Kind() == protoreflect.StringKind,
+		identical(funcs, coderStringNoZeroValidateUTF8) || identical(funcs, coderStringNoZero) ||
+			identical(funcs, coderBytesNoZeroValidateUTF8) || identical(funcs, coderBytesNoZero)))
+	ensures(imp(specImplicitScalar(fd) && fd.Kind() == protoreflect.BytesKind,
+		identical(funcs, coderStringNoZero) || identical(funcs, coderBytesNoZero)))
+	return
+}
